@@ -10,7 +10,7 @@ EXTENDS Ast, TLC, Json, IOUtils
 CONSTANT MaxLen
 
 Insts == {"m", "a", "b", "c", "d"}  \* module-level, make(10), make(20), nested make2(30), make3(): middle function shadows a captured name
-Fns == {"g", "i", "l"}              \* reader, modify-writer, local-writer
+Fns == {"g", "i", "l", "t"}         \* reader, modify-writer, local-writer, typed local-writer (`x: int = x + 100`)
 Vias == {"direct", "shadow", "plain"}
 
 Ops == [op : {"call"}, inst : Insts, f : Fns, via : Vias]
@@ -25,12 +25,13 @@ FT == "fn() -> int"
 Reader(v) == Fn("rd", <<>>, "int", <<Ret(V(v))>>)
 Writer(v) == Fn("wr", <<>>, "int", <<Modify(v, Bin("+", V(v), I(1))), Ret(V(v))>>)
 Local(v) == Fn("lo", <<>>, "int", <<Let(v, Bin("+", V(v), I(100))), Ret(V(v))>>)
-Three == <<Let("g", Reader("x")), Let("i", Writer("x")), Let("l", Local("x")),
-           Ret(List(<<V("g"), V("i"), V("l")>>))>>
+TLocal(v) == Fn("tl", <<>>, "int", <<LetT(v, "int", Bin("+", V(v), I(100))), Ret(V(v))>>)
+Three == <<Let("g", Reader("x")), Let("i", Writer("x")), Let("l", Local("x")), Let("t", TLocal("x")),
+           Ret(List(<<V("g"), V("i"), V("l"), V("t")>>))>>
 
 Prologue ==
     <<Let("x", I(10)),
-      Let("mg", Reader("x")), Let("mi", Writer("x")), Let("ml", Local("x")),
+      Let("mg", Reader("x")), Let("mi", Writer("x")), Let("ml", Local("x")), Let("mt", TLocal("x")),
       Let("pure", Fn("pure", <<>>, "int", <<Ret(I(5))>>)),
       Let("make", Fn("make", <<P("start", "int")>>, "[" \o FT \o "...]",
                      <<Let("x", V("start"))>> \o Three)),
@@ -46,11 +47,11 @@ Prologue ==
       Let("use2", Fn("use2", <<P("f", FT)>>, "int", <<Ret(Call(V("f"), <<>>))>>)),
       Let("a", Call(V("make"), <<I(10)>>)), Let("b", Call(V("make"), <<I(20)>>)),
       Let("c", Call(V("make2"), <<I(30)>>)),
-      Let("ag", Idx(V("a"), I(0))), Let("ai", Idx(V("a"), I(1))), Let("al", Idx(V("a"), I(2))),
-      Let("bg", Idx(V("b"), I(0))), Let("bi", Idx(V("b"), I(1))), Let("bl", Idx(V("b"), I(2))),
-      Let("cg", Idx(V("c"), I(0))), Let("ci", Idx(V("c"), I(1))), Let("cl", Idx(V("c"), I(2))),
+      Let("ag", Idx(V("a"), I(0))), Let("ai", Idx(V("a"), I(1))), Let("al", Idx(V("a"), I(2))), Let("at", Idx(V("a"), I(3))),
+      Let("bg", Idx(V("b"), I(0))), Let("bi", Idx(V("b"), I(1))), Let("bl", Idx(V("b"), I(2))), Let("bt", Idx(V("b"), I(3))),
+      Let("cg", Idx(V("c"), I(0))), Let("ci", Idx(V("c"), I(1))), Let("cl", Idx(V("c"), I(2))), Let("ct", Idx(V("c"), I(3))),
       Let("d", Call(V("make3"), <<>>)),
-      Let("dg", Idx(V("d"), I(0))), Let("di", Idx(V("d"), I(1))), Let("dl", Idx(V("d"), I(2)))>>
+      Let("dg", Idx(V("d"), I(0))), Let("di", Idx(V("d"), I(1))), Let("dl", Idx(V("d"), I(2))), Let("dt", Idx(V("d"), I(3)))>>
 
 FnVar(o) == V(o.inst \o o.f)
 OpStmt(o) ==
